@@ -32,9 +32,27 @@ class MeshLine1(MeshSimplex, Mesh):
         from .mesh_line_1 import MeshLine1
 
         if isinstance(other, MeshLine1):
-            return MeshQuad1.init_tensor(self.p[0], other.p[0])
+            m = MeshQuad1.init_tensor(self.p[0], other.p[0])
+            gx, gy = self._gaps(), other._gaps()
+            if len(gx) + len(gy) > 0:
+                # the product of the elements, not of the points
+                mid = m.p[:, m.t].mean(axis=1)
+                ix = np.searchsorted(np.sort(self.p[0]), mid[0]) - 1
+                iy = np.searchsorted(np.sort(other.p[0]), mid[1]) - 1
+                m = m.remove_elements(
+                    np.nonzero(np.isin(ix, gx) | np.isin(iy, gy))[0]
+                )
+            return m
 
         return other * self
+
+    def _gaps(self):
+        """Intervals between consecutive points which are not elements."""
+        rank = np.argsort(np.argsort(self.p[0]))
+        r = np.sort(rank[self.t], axis=0)
+        covered = np.zeros(self.p.shape[1] - 1, dtype=bool)
+        covered[r[0, r[1] - r[0] == 1]] = True
+        return np.nonzero(~covered)[0]
 
     def _uniform(self):
         p, t = self.doflocs, self.t
